@@ -34,4 +34,6 @@ def run(rep, fb, tier):
     from ..rules import binding as _bd
     _bd.rule_def_arg_order(rep, fb)
     __import__("vf.rules.binding", fromlist=["x"]).rule_stride_division(rep, fb)
+    __import__("vf.rules.pyrules3", fromlist=["x"]).rule_py_duplicate_operand(rep)
+    __import__("vf.rules.binding2", fromlist=["x"]).rule_binding_call_roles(rep, fb)
     rep.units = fb.units
